@@ -6,7 +6,7 @@ import tempfile
 from liquer.store import MemoryStore, FileStore, ProxyStore, IndexerStore, OverlayStore, MountPointStore
 from replay.storemodel import Explorer, RefStore, apply_op, observe, expected, diff, Prefixed
 
-UNIVERSE = ["a", "d", "d/x", "d/y", "d/e", "d/e/z"]
+UNIVERSE = ["a", "d", "d/x.txt", "d/x.csv", "d/e", "d/e/z"]       # two siblings share their stem: only the full name tells them apart
 
 
 def base_factory(kind):
